@@ -22,12 +22,18 @@ Lemma gen_init_spec c : bits c = 64 ->
   gen_init c = (ndata (init c), start (init c), nprocs c, init_chunk c).
 Proof.
   intros Hb. unfold gen_init, init, init_chunk, truthy; cbn [ndata start]. rewrite Hb.
+  (* equal as integer expressions (not only syntactically): robust against e.g. max(1, x) for max(x, 1) *)
   destruct (knd c); destruct (chunk c) as [x|]; cbv beta delta [gen_init_guided_none gen_init_guided_int
     gen_init_dynamic_none gen_init_dynamic_int gen_init_static_none gen_init_static_int]; cbv zeta;
-    try reflexivity; destruct (x =? 0); reflexivity.
+    try (destruct (Z.eqb_spec x 0)); cbn [negb];
+    repeat match goal with |- (_, _) = (_, _) => apply f_equal2 end; try reflexivity;
+    repeat match goal with |- context [?a / ?b] => generalize (a / b); intro end; lia.
 Qed.
 
 (* ---------- Scheduler.__iter__ ---------- *)
+(* evaluate lists, tuples and the comparisons of action codes, leave the integer expressions of the source alone *)
+Ltac ev := cbn -[Z.add Z.sub Z.div Z.max Z.mul wrap init_chunk Z.ltb Z.gtb].
+
 Definition gen_iter (c : cfg) (nd st : Z) : Z * Z * trace :=
   match knd c with
   | Guided => gen_iter_guided (bits c) (init_chunk c) (nprocs c) tt nd st []
@@ -36,6 +42,34 @@ Definition gen_iter (c : cfg) (nd st : Z) : Z * Z * trace :=
   end.
 
 (* one critical section of the model, run without interruption from the top of the loop *)
+Lemma cs_unfold f c s w :
+  cs_steps (S f) c s w =
+  match pcs (step c s w) w with PWork _ _ | PDone => step c s w | _ => cs_steps f c (step c s w) w end.
+Proof. reflexivity. Qed.
+
+Lemma step_at c s w p : pcs s w = p ->
+  step c s w =
+  match p with
+  | PIdle => match lock s with
+             | None => mk_state (ndata s) (start s) (Some w) (upd (pcs s) w PLocked) (out s) (wdone s)
+             | Some _ => s end
+  | PLocked => set_pc s w (PReadN (ndata s))
+  | PReadN nd => set_pc s w (PReadS nd (start s))
+  | PReadS nd st =>
+      let ch := chunk_of c nd in
+      if nd =? 0 then mk_state (ndata s) (start s) None (upd (pcs s) w PDone) (out s) (wdone s)
+      else if nd <? ch then
+        mk_state (wrap (bits c) 0) (start s) (lock s) (upd (pcs s) w (PRelease st (st + nd))) (out s) (wdone s)
+      else mk_state (wrap (bits c) (nd - ch)) (start s) (lock s) (upd (pcs s) w (PWroteN nd st ch)) (out s) (wdone s)
+  | PWroteN nd st ch =>
+      mk_state (ndata s) (wrap (bits c) (st + ch)) (lock s) (upd (pcs s) w (PRelease st (st + ch))) (out s) (wdone s)
+  | PRelease s0 s1 =>
+      mk_state (ndata s) (start s) None (upd (pcs s) w (PWork s0 s1)) (out s ++ [(w, (s0, s1))]) (wdone s)
+  | PWork s0 s1 => mk_state (ndata s) (start s) (lock s) (upd (pcs s) w PIdle) (out s) (wdone s ++ [(s0, s1)])
+  | PDone => s
+  end.
+Proof. intros <-. reflexivity. Qed.
+
 Lemma cs_steps_spec c s w : pcs s w = PIdle -> lock s = None ->
   let nd := ndata s in let st := start s in let ch := chunk_of c nd in
   let s' := cs_steps 6 c s w in
@@ -49,23 +83,38 @@ Lemma cs_steps_spec c s w : pcs s w = PIdle -> lock s = None ->
 Proof.
   intros Hpc Hl. cbv zeta.
   (* acquire *)
-  cbn [cs_steps]. unfold step at 1. rewrite Hpc, Hl. cbn [pcs]. rewrite upd_same.
+  rewrite cs_unfold. rewrite (step_at c s w PIdle Hpc), Hl.
+  set (s1 := mk_state (ndata s) (start s) (Some w) (upd (pcs s) w PLocked) (out s) (wdone s)).
+  assert (H1 : pcs s1 w = PLocked) by apply upd_same. rewrite H1.
   (* read ndata *)
-  unfold step at 1. cbn [pcs set_pc]. rewrite upd_same. cbn [pcs ndata start lock out wdone]. rewrite upd_same.
+  rewrite cs_unfold. rewrite (step_at c s1 w PLocked H1).
+  set (s2 := set_pc s1 w (PReadN (ndata s1))).
+  assert (H2 : pcs s2 w = PReadN (ndata s)) by apply upd_same. rewrite H2.
   (* read start *)
-  unfold step at 1. cbn [pcs set_pc ndata start lock out wdone]. rewrite upd_same. cbn [pcs]. rewrite upd_same.
+  rewrite cs_unfold. rewrite (step_at c s2 w _ H2).
+  set (s3 := set_pc s2 w (PReadS (ndata s) (start s2))).
+  assert (H3 : pcs s3 w = PReadS (ndata s) (start s)) by apply upd_same. rewrite H3.
   (* branch *)
-  unfold step at 1. cbn [pcs ndata start lock out wdone]. rewrite upd_same.
+  rewrite cs_unfold. rewrite (step_at c s3 w _ H3). cbv zeta.
   destruct (ndata s =? 0) eqn:E0.
-  - cbn [pcs ndata start lock out wdone]. rewrite upd_same. repeat split; reflexivity.
+  - set (s4 := mk_state _ _ _ _ _ _). assert (H4 : pcs s4 w = PDone) by apply upd_same. rewrite H4.
+    repeat split; assumption || reflexivity.
   - destruct (ndata s <? chunk_of c (ndata s)) eqn:E1.
-    + cbn [pcs ndata start lock out wdone]. rewrite upd_same.
-      unfold step at 1. cbn [pcs ndata start lock out wdone]. rewrite upd_same. cbn [pcs]. rewrite upd_same.
-      repeat split; reflexivity.
-    + cbn [pcs ndata start lock out wdone]. rewrite upd_same.
-      unfold step at 1. cbn [pcs ndata start lock out wdone]. rewrite upd_same. cbn [pcs]. rewrite upd_same.
-      unfold step at 1. cbn [pcs ndata start lock out wdone]. rewrite upd_same. cbn [pcs]. rewrite upd_same.
-      repeat split; reflexivity.
+    + set (s4 := mk_state _ _ _ _ _ _).
+      assert (H4 : pcs s4 w = PRelease (start s) (start s + ndata s)) by apply upd_same. rewrite H4.
+      rewrite cs_unfold. rewrite (step_at c s4 w _ H4).
+      set (s5 := mk_state _ _ _ _ _ _).
+      assert (H5 : pcs s5 w = PWork (start s) (start s + ndata s)) by apply upd_same. rewrite H5.
+      repeat split; assumption || reflexivity.
+    + set (s4 := mk_state _ _ _ _ _ _).
+      assert (H4 : pcs s4 w = PWroteN (ndata s) (start s) (chunk_of c (ndata s))) by apply upd_same. rewrite H4.
+      rewrite cs_unfold. rewrite (step_at c s4 w _ H4).
+      set (s5 := mk_state _ _ _ _ _ _).
+      assert (H5 : pcs s5 w = PRelease (start s) (start s + chunk_of c (ndata s))) by apply upd_same. rewrite H5.
+      rewrite cs_unfold. rewrite (step_at c s5 w _ H5).
+      set (s6 := mk_state _ _ _ _ _ _).
+      assert (H6 : pcs s6 w = PWork (start s) (start s + chunk_of c (ndata s))) by apply upd_same. rewrite H6.
+      repeat split; assumption || reflexivity.
 Qed.
 
 (* __iter__ as written: the trace of one loop iteration respects the lock discipline (acquire; only counter
@@ -83,15 +132,16 @@ Lemma gen_iter_spec c s w : pcs s w = PIdle -> lock s = None ->
 Proof.
   intros Hpc Hl. pose proof (cs_steps_spec c s w Hpc Hl) as H. cbv zeta in H.
   destruct H as (Hlk & Hwd & H).
+  set (s' := cs_steps 6 c s w) in *. clearbody s'.
   unfold gen_iter, chunk_of in *.
   destruct (knd c);
     cbv beta delta [gen_iter_guided gen_iter_dynamic gen_iter_static ev_acquire ev_read_ndata ev_read_start
                     ev_write_ndata ev_write_start ev_release ev_yield ev_return]; cbv zeta;
     rewrite ?Z.gtb_ltb;
     destruct (ndata s =? 0); cbn [negb];
-    try (destruct H as (H1 & H2 & H3 & H4); cbn; repeat split; assumption);
+    try (destruct H as (H1 & H2 & H3 & H4); ev; repeat split; assumption);
     match goal with |- context [?a <? ?b] => destruct (a <? b) end;
-    destruct H as (H1 & H2 & H3 & H4); cbn; repeat split; assumption.
+    destruct H as (H1 & H2 & H3 & H4); ev; repeat split; assumption.
 Qed.
 
 (* the lock discipline alone, as a boolean fact about the generated trace *)
@@ -101,6 +151,6 @@ Proof.
   destruct (knd c);
     cbv beta delta [gen_iter_guided gen_iter_dynamic gen_iter_static ev_acquire ev_read_ndata ev_read_start
                     ev_write_ndata ev_write_start ev_release ev_yield ev_return]; cbv zeta;
-    destruct (nd =? 0); cbn [negb]; try (cbn; discriminate);
-    match goal with |- context [?a >? ?b] => destruct (a >? b) end; cbn; discriminate.
+    destruct (nd =? 0); cbn [negb]; try (ev; discriminate);
+    match goal with |- context [?a >? ?b] => destruct (a >? b) end; ev; discriminate.
 Qed.
